@@ -145,8 +145,9 @@ def units(tier, seed):
     UNCOVERED[:] = ['classes without a proved K3 (see C01: outside the supported subset or whole-class known findings) and text-layer '
                     'classes (HTTP headers, SSH banner, DNS TXT key-value text: C18 territory): ' +
                     ', '.join(sorted(common.class_key(c) for c in e1.binary_classes() if c not in classes))]
-    from checks import hello
+    from checks import hello, kexinit
     out.append(hello.unit(('K3', 'K9'), 'K3+K9 premises for the client hello'))
+    out.append(kexinit.k5_unit())
     return out + foundation.units(tier, seed)
 
 
